@@ -354,7 +354,7 @@ func (g *G) genC02(p *Plan) {
 	if g.chance(0.3) {
 		// path-prefix keys: fine on opaque backends; a file-system backend
 		// holds one of the two at a time and refuses the newcomer
-		keys = append(keys, "a", "a/b")
+		keys = append(keys, "a", "a/b", "a/b/c/d")
 	}
 	bkt := func() string {
 		if g.chance(0.08) && c.Backend != "singlefs" {
